@@ -32,7 +32,9 @@ RULE = ("random experience sequences (S 1..5, A 1..4, length 1..400) with reward
         "(alpha in {1,1/2,1/8}, gamma in {1/2,3/4}, lambda in {0,1/2,1}) compared bit-exactly per step while numbers are "
         "small dyadics, general regime (0.1, 0.9, random doubles) within 1e-9; model re-synchronised to the "
         "implementation at every dump; non-trivial = at least two steps and (traces) a trace removal / (DoubleQ) both "
-        "coin outcomes / (PS) a non-empty queue")
+        "coin outcomes / (PS) a non-empty queue; round 6 kind dqstar: MDP built backwards from a dyadic Q* (R := Q* - gamma P V*), "
+        "DoubleQLearning::setQFunction(Q*) then one stepUpdateQ per successor state (reset before each), always exact; "
+        "non-trivial = both coins seen and some sample moves an entry")
 CASE_TIMEOUT = 30
 
 
@@ -285,6 +287,38 @@ def gen_dyna(rng, tier):
     return " ".join(map(str, toks))
 
 
+def gen_dqstar(rng, tier):
+    """round 6: MDP built BACKWARDS from a chosen Q* (V dyadic, Q(s,a) <= V(s) with equality somewhere,
+    R := Q - gamma P V), so Q* is exact and dyadic; 40 % of the rows are point masses (deterministic clause)"""
+    from fractions import Fraction as F
+    nS = rng.choice([1, 2, 3, 3, 4]); nA = rng.choice([1, 2, 2, 3])
+    alpha = rng.choice(["1", "1/2", "1/4", "3/4"]); gamma = rng.choice(["1/2", "3/4", "1/4"])
+    g = F(gamma)
+    V = [F(rng.randint(-16, 16), 4) for _ in range(nS)]
+    Q = [[V[s] - F(rng.choice([0, 0, 1, 2, 5, 8]), 4) for _ in range(nA)] for s in range(nS)]
+    for s in range(nS): Q[s][rng.randrange(nA)] = V[s]
+    P = {}
+    toks = ["dqstar", nS, nA, alpha, gamma]
+    for a in range(nA):
+        for s in range(nS):
+            if rng.random() < 0.4:
+                k = rng.randrange(nS); row = [F(1) if j == k else F(0) for j in range(nS)]
+            else:
+                row = [F(x) for x in dist_row(rng, nS, den=rng.choice([2, 4, 8]))]
+            P[(s, a)] = row
+            toks += [fr(x.numerator, x.denominator) for x in row]
+    for s in range(nS):
+        for a in range(nA): toks.append(fr(Q[s][a].numerator, Q[s][a].denominator))
+    for s in range(nS):
+        for a in range(nA):
+            r = Q[s][a] - g * sum(P[(s, a)][j] * V[j] for j in range(nS))
+            toks.append(fr(r.numerator, r.denominator))
+    np_ = rng.randint(1, 6)
+    toks.append(np_)
+    for _ in range(np_): toks += [rng.randrange(nS), rng.randrange(nA)]
+    return " ".join(map(str, toks))
+
+
 def gen(rng, tier):
     n = {"quick": 500, "thorough": 3000, "search": 1500}[tier]
     out = []
@@ -292,4 +326,8 @@ def gen(rng, tier):
         u = rng.random()
         out.append(gen_ps(rng, tier) if u < 0.18 else gen_psn(rng, tier) if u < 0.24 else gen_dyna(rng, tier) if u < 0.29
                    else gen_dyna2(rng, tier) if u < 0.36 else gen_case(rng, tier))
+    # round 6: the DoubleQ fixed-point cases are appended AFTER the older kinds so that the older kinds see the same
+    # random stream as before for every seed
+    for _ in range(n * 7 // 100):
+        out.append(gen_dqstar(rng, tier))
     return out
